@@ -99,9 +99,10 @@ Section T.
 Variable g : tgrammar.
 Variable codes : list Z.     (* terminal number -> code *)
 Variable t_err : nat.        (* the terminal `error' *)
-Variable w : list nat.       (* input as terminal numbers; attribute = position *)
+Variable w : list nat.       (* input as terminal numbers *)
+Variable attrs : list nat.   (* attribute of the token at each position; [] = the position itself *)
 
-Definition leaf (a pos : nat) : tree := if Nat.eqb a t_err then Err else Term (nth a codes 0%Z) pos.
+Definition leaf (a pos : nat) : tree := if Nat.eqb a t_err then Err else Term (nth a codes 0%Z) (nth pos attrs pos).
 
 Definition pred := nat -> nat -> nat -> tree -> Prop.   (* nonterminal, from, to, translation *)
 
@@ -332,12 +333,28 @@ Qed.
 End T.
 
 (* ---------- top level: translations of an input ---------- *)
-Definition translation (g : tgrammar) (codes : list Z) (t_err start : nat) (w : list nat) (t : tree) : Prop :=
-  trans_nt g codes t_err w start 0 (length w) t.
+Definition translation_a (g : tgrammar) (codes : list Z) (t_err start : nat) (w attrs : list nat) (t : tree) : Prop :=
+  trans_nt g codes t_err w attrs start 0 (length w) t.
+Definition translation g codes t_err start w t := translation_a g codes t_err start w [] t.
+
+Definition all_translations_a (fuel : nat) (g : tgrammar) (codes : list Z) (t_err start : nat) (w attrs : list nat)
+  : option (list tree) :=
+  match all_tables g codes t_err w attrs fuel with
+  | Some tb => Some (lookup tb (start, 0, length w))
+  | None => None
+  end.
+
+Theorem all_translations_a_spec fuel g codes t_err start w attrs L :
+  all_translations_a fuel g codes t_err start w attrs = Some L ->
+  forall t, In t L <-> translation_a g codes t_err start w attrs t.
+Proof.
+  unfold all_translations_a. destruct (all_tables _ _ _ _ _ _) as [tb|] eqn:E; [|discriminate].
+  intros H t; injection H as <-. apply (all_tables_spec _ _ _ _ _ _ _ E).
+Qed.
 
 Definition all_translations (fuel : nat) (g : tgrammar) (codes : list Z) (t_err start : nat) (w : list nat)
   : option (list tree) :=
-  match all_tables g codes t_err w fuel with
+  match all_tables g codes t_err w [] fuel with
   | Some tb => Some (lookup tb (start, 0, length w))
   | None => None
   end.
@@ -346,8 +363,8 @@ Theorem all_translations_spec fuel g codes t_err start w L :
   all_translations fuel g codes t_err start w = Some L ->
   forall t, In t L <-> translation g codes t_err start w t.
 Proof.
-  unfold all_translations. destruct (all_tables _ _ _ _ _) as [tb|] eqn:E; [|discriminate].
-  intros H t; injection H as <-. apply (all_tables_spec _ _ _ _ _ _ E).
+  unfold all_translations. destruct (all_tables _ _ _ _ _ _) as [tb|] eqn:E; [|discriminate].
+  intros H t; injection H as <-. apply (all_tables_spec _ _ _ _ _ _ _ E).
 Qed.
 
 (* cost of a translation: the sum of the costs of its abstract nodes *)
